@@ -193,7 +193,20 @@ pub fn run_check(replay: Option<Value>) -> i32 {
         }
     }
     // sol(t) / sol_many / t_eval through solve_ivp are as trustworthy as the endpoints (both directions)
-    let sprobs: Vec<(Prob, f64)> = vec![(base(Base::Harmonic(1.3)), 3.0), (warp(&base(Base::Logistic(2.0)), Warp::Sin), 2.5), (warp(&base(Base::Harmonic(1.0)), Warp::Quad), 2.0)];
+    // the last one is dissipative (y' = -20 (y - g) + g', y = g): its endpoint errors stay at the level of
+    // the local error, so that a loss of one order inside the steps is not hidden by accumulated error
+    let gfun = |t: f64| (2.0 * t).sin() + 0.5 * t.cos();
+    let dgfun = |t: f64| 2.0 * (2.0 * t).cos() - 0.5 * t.sin();
+    let tracking = Prob {
+        name: "tracking y'=-20(y-g)+g'".into(),
+        n: 1,
+        f: std::sync::Arc::new(move |t, y, d| d[0] = -20.0 * (y[0] - gfun(t)) + dgfun(t)),
+        jac: Some(std::sync::Arc::new(|_t, _y| vec![-20.0])),
+        flow: Some(std::sync::Arc::new(move |s0, y0, s1| vec![gfun(s1) + (y0[0] - gfun(s0)) * (-20.0 * (s1 - s0)).exp()])),
+        y0: vec![gfun(0.0)],
+        linear_homogeneous: false,
+    };
+    let sprobs: Vec<(Prob, f64)> = vec![(base(Base::Harmonic(1.3)), 3.0), (warp(&base(Base::Logistic(2.0)), Warp::Sin), 2.5), (warp(&base(Base::Harmonic(1.0)), Warp::Quad), 2.0), (tracking, 10.0)];
     for m in crate::run::M6 {
         for backward in [false, true] {
             for (pi, (p0, span)) in sprobs.iter().enumerate() {
